@@ -883,6 +883,12 @@ func gridLayout(context *layoutContext, box_ Box, bottomSpace pr.Float, skipStac
 	if gridAreas.IsNone() {
 		gridAreas = pr.GridTemplateAreas{{""}}
 	}
+	// the rows and columns are adjusted below: work on a copy, the style's value is shared
+	areasCopy := make(pr.GridTemplateAreas, len(gridAreas))
+	for i, row := range gridAreas {
+		areasCopy[i] = append([]string(nil), row...)
+	}
+	gridAreas = areasCopy
 
 	rows := getTemplateTracks(style.GetGridTemplateRows())
 	columns := getTemplateTracks(style.GetGridTemplateColumns())
